@@ -29,6 +29,16 @@ AnyFnGen = Callable[..., T]
 MaybeAwaitable = Union[Awaitable[T], T]
 
 
+def _call_in_thread(fn: AnyFnGen[T], *args: Any, **kwargs: Any) -> T:
+    # StopIteration cannot be set on a future: depending on the Python version
+    # the awaiting side hangs or takes the exception's value for a result.
+    # Same conversion as PEP 479 applies to generators.
+    try:
+        return fn(*args, **kwargs)
+    except StopIteration as err:
+        raise RuntimeError("callable raised StopIteration") from err
+
+
 class AsyncIORuntime(SubscriptionRuntime):
     """
     Executor implementation to work with Python's asyncio module.
@@ -53,7 +63,7 @@ class AsyncIORuntime(SubscriptionRuntime):
         ):
 
             return self.loop.run_in_executor(
-                None, ft.partial(fn, *args, **kwargs)
+                None, ft.partial(_call_in_thread, fn, *args, **kwargs)
             )
 
         return fn(*args, **kwargs)
@@ -156,7 +166,7 @@ class AsyncIORuntime(SubscriptionRuntime):
 
             async def wrapped(*args, **kwargs):
                 return await self.loop.run_in_executor(
-                    None, ft.partial(func, *args, **kwargs)
+                    None, ft.partial(_call_in_thread, func, *args, **kwargs)
                 )
 
             return wrapped
